@@ -115,7 +115,7 @@ class FilterScenario:
         self.fi = repo.fn(CFG, "default_code_filter")
         self.mod = repo.module(CFG)
         inline = {f.fq for f in self.mod.functions.values()}
-        self.ri = RepoInterp(repo, self.fi, inline=inline, call_hook=self.hook, may_fork=(), heap=True, max_depth=6)
+        self.ri = RepoInterp(repo, self.fi, inline=inline, call_hook=self.hook, may_fork=(), heap=True, max_depth=16)
         base_name = self.ri.on_name
         base_attr = self.ri.on_attr
         self.path_work: List[str] = []
